@@ -17,6 +17,16 @@ int main(int argc, char **argv) {
   if (!r.ok && r.error.where.offset > n) replay_io::fail("T1 reported error offset " + std::to_string(r.error.where.offset) + " outside the " + std::to_string(n) + "-byte input");
   if (!r.ok && r.error.message.empty()) replay_io::fail("T3 failure without error message");
   free(buf);
+  // duplicate member names: the reference decoder (and RFC 8259 practice) keeps the LAST occurrence; fixed scenarios, independent of IN
+  { const char *docs[] = { "{\"a\":1,\"a\":2}", "{\"a\\/b\":1,\"a/b\":2}", "{\"k\":[1],\"x\":0,\"k\":{\"k\":3,\"k\":4}}" };
+    for (const char *doc : docs) { ParseResult d2 = Json::parse(std::string_view(doc), ParseLimits{});
+      if (!d2.ok || !d2.value.isObject()) replay_io::fail(std::string("valid object text rejected: ") + doc); }
+    ParseResult a = Json::parse(std::string_view(docs[0]), ParseLimits{});
+    if (!(a.value["a"] == 2)) replay_io::fail("duplicate key: {\"a\":1,\"a\":2} must decode a -> 2 (last wins), got " + a.value["a"].dump());
+    ParseResult b = Json::parse(std::string_view(docs[1]), ParseLimits{});
+    if (!(b.value["a/b"] == 2)) replay_io::fail("duplicate key spelled with an escape: a\\/b then a/b must decode to 2 (last wins), got " + b.value["a/b"].dump());
+    ParseResult c = Json::parse(std::string_view(docs[2]), ParseLimits{});
+    if (!c.value["k"].isObject() || !(c.value["k"]["k"] == 4)) replay_io::fail("nested duplicate keys: last wins on both levels"); }
   replay_io::ok("contract clauses hold on this input");
   return 0;
 }
